@@ -102,7 +102,8 @@ fn gen_enum_block(i: u64, src: &mut String) {
 fn gen_emitter_block(r: &mut Rng, i: u64, src: &mut String, uses: &mut Vec<String>) {
     match r.below(5) {
         0 => {
-            let n = r.range(2, 5);
+            // usually short, sometimes long enough to exceed any small internal bound on folding depth
+            let n = if r.chance(1, 3) { r.range(9, 30) } else { r.range(2, 5) };
             src.push_str(&format!("const BASE{i}: str = \"base{i}\"\n"));
             for j in 0..n {
                 let prev = if j == 0 { format!("BASE{i}") } else { format!("PART{i}_{}", j - 1) };
